@@ -112,7 +112,7 @@ type Obs struct {
 	// (crash points, schedules), the property reports them here.
 	Evals int
 	// extra distinct non-trivial sub-cases (hash keys) of this case
-	subKeys []string
+	subKeys  []string
 	rejected bool
 }
 
@@ -146,36 +146,36 @@ type violationOut struct {
 }
 
 type statsOut struct {
-	ID          string            `json:"id"`
-	Evaluations int               `json:"evaluations"`
-	Cases       int               `json:"cases"`
-	Hashes      []string          `json:"hashes"`
-	Classes     map[string]int    `json:"classes"`
-	Counts      map[string]int    `json:"counts"`
-	Samples     []json.RawMessage `json:"samples"`
-	Violations  []violationOut    `json:"violations"`
-	KnownHits   map[string]int    `json:"known_hits"`
-	Rejected    int               `json:"rejected"`
-	Completed   bool              `json:"completed"`
+	ID          string                 `json:"id"`
+	Evaluations int                    `json:"evaluations"`
+	Cases       int                    `json:"cases"`
+	Hashes      []string               `json:"hashes"`
+	Classes     map[string]int         `json:"classes"`
+	Counts      map[string]int         `json:"counts"`
+	Samples     []json.RawMessage      `json:"samples"`
+	Violations  []violationOut         `json:"violations"`
+	KnownHits   map[string]int         `json:"known_hits"`
+	Rejected    int                    `json:"rejected"`
+	Completed   bool                   `json:"completed"`
 	Extra       map[string]interface{} `json:"extra,omitempty"`
 }
 
 // Recorder accumulates one test's statistics.
 type Recorder struct {
-	mu        sync.Mutex
-	id        string
-	evals     int
-	cases     int
-	rejected  int
-	hashes    map[uint64]struct{}
-	classes   map[string]int
-	counts    map[string]int
-	samples   []json.RawMessage
-	viols     []violationOut
-	knownHits map[string]int
-	known     map[string]bool
-	failed    bool
-	extra     map[string]interface{}
+	mu         sync.Mutex
+	id         string
+	evals      int
+	cases      int
+	rejected   int
+	hashes     map[uint64]struct{}
+	classes    map[string]int
+	counts     map[string]int
+	samples    []json.RawMessage
+	viols      []violationOut
+	knownHits  map[string]int
+	known      map[string]bool
+	failed     bool
+	extra      map[string]interface{}
 	maxSamples int
 }
 
